@@ -27,15 +27,16 @@ def published(kind, g, u):
 def agree(a, b, scale):
     both_nan = np.isnan(a) & np.isnan(b)
     with np.errstate(all='ignore'):
-        ok = (np.abs(a - b) <= 1e-11 * (scale + np.abs(b))) | both_nan | (a == b)
+        ok = (np.isfinite(a) & np.isfinite(b) & (np.abs(a - b) <= 1e-11 * (scale + np.abs(b)))) | both_nan | (a == b)
     return bool(np.all(ok))
 
 def suite_eval(ctx, case):
     name = case['cls']; kind = NAMES[name]; hc = case['hc']
     r = np.array(case['r'], dtype=float); g = np.array(case['gamma'], dtype=float); u = np.array(case['u'], dtype=float)
     if case.get('uint'): u = np.rint(u).astype(int)          # an integer-TYPED potential array, e.g. a square well np.where(r < 1.5, -2, 0)
+    if case.get('gint'): g = np.rint(g).astype(int)          # an integer-TYPED gamma (finding F19)
     sigma = case['sigma']
-    c = getattr(CL, name)(apply_hard_core=hc)
+    c = getattr(CL, name)(hc) if case.get('positional') else getattr(CL, name)(apply_hard_core=hc)      # the flag is the first positional argument
     c.sigma = sigma; c.potential = u
     r0, g0, u0 = r.copy(), g.copy(), u.copy()
     with np.errstate(all='ignore'):
@@ -152,15 +153,16 @@ def gen_case(rng, maxL):
     elif gk == 'tails': g = [rng.choice([-50, 50, -20, 20, rng.gauss(0, 5)]) for _ in r]
     elif gk == 'zero': g = [0.0 for _ in r]
     else: g = [rng.gauss(0, 1e-3) for _ in r]
-    uk = rng.choice(['random', 'hardcore', 'lj', 'zero', 'tiny', 'deepwell'])
+    uk = rng.choice(['random', 'hardcore', 'lj', 'zero', 'tiny', 'deepwell', 'infwall'])
     if uk == 'deepwell': u = [rng.choice([-800.0, -1000.0, -750.0]) if x <= sigma else rng.gauss(0, 0.5) for x in r]      # exp(-u) overflows inside the core only
+    elif uk == 'infwall': u = [float('inf') if x <= sigma * rng.choice([1.0, 1.0, 1.3]) else rng.gauss(0, 0.5) for x in r]      # an infinitely high wall, also beyond the core
     elif uk == 'random': u = [rng.gauss(0, 2) for _ in r]
     elif uk == 'hardcore': u = [1e6 / rng.choice([0.5, 1.0, 2.0]) if x <= sigma else rng.gauss(0, 0.3) for x in r]
     elif uk == 'lj': u = [min(4 * ((1.0 / x) ** 12 - (1.0 / x) ** 6), 1e30) for x in r]
     elif uk == 'zero': u = [0.0 for _ in r]
     else: u = [rng.gauss(0, 1e-3) for _ in r]
     return {'cls': rng.choice(list(NAMES)), 'hc': rng.random() < 0.5, 'sigma': sigma, 'r': r, 'gamma': g, 'u': u,
-            'probe': rng.randrange(1000), 'fam': [sk, gk, uk], 'uint': uk == 'random' and rng.random() < 0.3}
+            'probe': rng.randrange(1000), 'fam': [sk, gk, uk], 'uint': uk == 'random' and rng.random() < 0.3, 'positional': rng.random() < 0.3, 'gint': gk in ('normal', 'tails') and rng.random() < 0.15}
 
 def gen_history(rng):
     base = gen_case(rng, 24)
